@@ -1309,7 +1309,40 @@ class _StmtMixin:
             return v
         return Op("unpack", v, Const(i))
 
+    def fold_under_guard(self, t):
+        """constant propagation from equality guards: under a path condition x == C a key built from x folds"""
+        if isinstance(t, Const):
+            return t
+        m = {}
+        for c in self.cur_guard_list():
+            if isinstance(c, Op) and c.op == "eq" and isinstance(c.args[1], Const) and not isinstance(c.args[0], Const):
+                m[c.args[0]] = c.args[1]
+        if not m or not any(x in m for x in walk(t)):
+            return t
+        return self.refold(subst(t, m))
+
+    def refold(self, t):
+        if isinstance(t, Op):
+            args = tuple(self.refold(a) for a in t.args)
+            if t.op == "chr" and is_int(args[0]):
+                try:
+                    return Const(chr(args[0].v))
+                except Exception:
+                    pass
+            if t.op == "concat" and all(is_const(a, str) for a in args):
+                return Const("".join(a.v for a in args))
+            if t.op == "dictget" and isinstance(args[0], Ref) and isinstance(args[1], Const):
+                o = self.heap.get(args[0].oid)
+                if isinstance(o, DictObj) and o.concrete():
+                    hit = o.lookup(args[1])
+                    return hit[0] if hit else args[2]
+            if args != t.args:
+                from .terms import rebuild
+                return rebuild(t.op, args)
+        return t
+
     def setitem(self, base, key, v, node):
+        key = self.fold_under_guard(key)
         if isinstance(base, Ite):
             for c, alt in ((base.c, base.a), (not_(base.c), base.b)):
                 self.guard.append(c)
